@@ -290,6 +290,8 @@ func c15Rich() *Scenario {
 	pre(one("create(A->R1,600nund@10)", model.Msg{Kind: model.StrCreate, From: "A", To: "R1", Den: mc.Nund, Amt: "600", Rate: 10}, nil))
 	pre(one("create(A->R2,121tok@2)", model.Msg{Kind: model.StrCreate, From: "A", To: "R2", Den: mc.Tok, Amt: "121", Rate: 2}, nil))
 	pre(one("create(B->R1,6000nund@1)", model.Msg{Kind: model.StrCreate, From: "B", To: "R1", Den: mc.Nund, Amt: "6000", Rate: 1}, nil))
+	pre(one("create(B->L32:M,600nund@1)", model.Msg{Kind: model.StrCreate, From: "B", To: "L32:M", Den: mc.Nund, Amt: "600", Rate: 1}, nil))
+	s.Tracked = append(s.Tracked, "L32:M")
 	gs := Action{Name: "gov(stream:fee=0.5)", Gov: &GovSpec{Kind: model.StrParams, Params: "0.500000000000000000"}}
 	gw := Action{Name: "gov(wrk:default=3,max=6)", Gov: &GovSpec{Kind: model.WrkParams, Params: model.AnchorParams{FeeReg: 24, FeeRec: 2, FeePur: 3, Denom: mc.Nund, Default: 3, Max: 6}}}
 	pre(gs)
